@@ -1,7 +1,7 @@
 """Unit fmt_strings: the text the formatter prints inside a string literal is read back by the lexer as the same string.
 
 Real code under contract:
-  prqlc/prqlc-parser/src/lexer/lr.rs  escape_all_except_quotes (whole function)
+  prqlc/prqlc-parser/src/lexer/lr.rs  escape_all_except_quotes (whole function), quote_string (whole function)
 """
 import re
 
@@ -11,8 +11,8 @@ from extract import ExtractionError
 
 LR = "prqlc/prqlc-parser/src/lexer/lr.rs"
 
-LABELS = ["EQ1", "EQI"]
-FUNCTIONS = ["escape_all_except_quotes"]
+LABELS = ["EQ1", "EQI", "QS3"]
+FUNCTIONS = ["escape_all_except_quotes", "quote_string"]
 RLIMIT = 80
 
 ASSUMED = [
@@ -25,6 +25,12 @@ ASSUMED = [
              "everything else \\\\u{HEX} with 1-6 digits) is an escape the PRQL lexer decodes to that char (lexer contract: unit lex_strings ES2a, ES2c); validated by the "
              "thorough-tier sweep over control, ASCII and non-ASCII characters", "keys": ["fn axiom_escape_default_decodes", "spec fn hex_value"]},
     common_std.VERIF_ITER_ASSUMPTION,
+    {"what": "quote_string: str::contains / starts_with / ends_with for a char have their std meaning; the iterator chain `s.split(|c| c != quote).map(len).max().unwrap_or(0)` "
+             "is max_run(): the length of the longest run of that quote in s (0 if it does not occur); `quote.to_string().repeat(n)` is n copies of the quote; the two "
+             "format! calls concatenate delimiter, content, delimiter; str::replace('\"', \"\\\\\"\") is the uninterpreted escape_dq(), which the lexer reads back as the content "
+             "(escaped quote: lex_strings ES2a)",
+     "keys": ["fn str_contains_char", "fn str_starts_with_char", "fn str_ends_with_char", "fn max_consecutive_of", "spec fn max_run", "fn axiom_max_run", "fn repeat_quote",
+              "fn fmt_delim", "fn fmt_wrap", "fn fmt_wrap_escaped", "fn str_escape_dq", "spec fn escape_dq", "fn usize_div_ceil"]},
 ]
 TRUSTED = [
     "oracle (C14 / C08): inside a string literal the lexer reads a character other than backslash as itself and \\\\ followed by an escape as the character the escape denotes "
@@ -67,6 +73,33 @@ pub proof fn axiom_escape_default_decodes(c: char)
     requires c != '"' && c != '\'',
     ensures decodes_to(esc_default(c), c),
 {}
+
+// ---------------------------------------------------------------- quote_string shims and oracle
+pub open spec fn has_char(s: Seq<char>, c: char) -> bool { exists|i: int| 0 <= i < s.len() && #[trigger] s[i] == c }
+pub open spec fn starts(s: Seq<char>, c: char) -> bool { s.len() > 0 && s[0] == c }
+pub open spec fn ends(s: Seq<char>, c: char) -> bool { s.len() > 0 && s.last() == c }
+#[verifier::external_body] pub fn str_contains_char(s: &str, c: char) -> (r: bool) ensures r == has_char(s@, c), { unimplemented!() }
+#[verifier::external_body] pub fn str_starts_with_char(s: &str, c: char) -> (r: bool) ensures r == starts(s@, c), { unimplemented!() }
+#[verifier::external_body] pub fn str_ends_with_char(s: &str, c: char) -> (r: bool) ensures r == ends(s@, c), { unimplemented!() }
+pub uninterp spec fn max_run(s: Seq<char>, q: char) -> nat;       // length of the longest run of q in s
+#[verifier::external_body] pub proof fn axiom_max_run(s: Seq<char>, q: char) ensures !has_char(s, q) ==> max_run(s, q) == 0, max_run(s, q) <= s.len(), {}
+#[verifier::external_body] pub fn max_consecutive_of(s: &str, quote: char) -> (r: usize) ensures r == max_run(s@, quote), { unimplemented!() }
+#[verifier::external_body] pub fn usize_div_ceil(a: usize, b: usize) -> (r: usize) requires b > 0, ensures r == (a + b - 1) / (b as int), { unimplemented!() }
+pub open spec fn is_rep(d: Seq<char>, q: char, n: nat) -> bool { d.len() == n && forall|i: int| 0 <= i < n ==> d[i] == q }
+#[verifier::external_body] pub fn repeat_quote(quote: char, n: usize) -> (r: String) ensures is_rep(r@, quote, n as nat), { unimplemented!() }
+// out = n quotes, the content, n quotes
+pub open spec fn wraps(out: Seq<char>, s: Seq<char>, q: char, n: nat) -> bool { exists|d: Seq<char>| #[trigger] is_rep(d, q, n) && out == d + s + d }
+#[verifier::external_body]
+pub fn fmt_delim(delim: &String, s: &str) -> (r: String) ensures forall|q: char, n: nat| #[trigger] is_rep(delim@, q, n) ==> wraps(r@, s@, q, n), { unimplemented!() }
+#[verifier::external_body] pub fn fmt_wrap(q: char, s: &str) -> (r: String) ensures wraps(r@, s@, q, 1), { unimplemented!() }
+pub uninterp spec fn escape_dq(s: Seq<char>) -> Seq<char>;          // s with every double quote preceded by a backslash
+#[verifier::external_body] pub fn str_escape_dq(s: &str) -> (r: String) ensures r@ == escape_dq(s@), { unimplemented!() }
+// ORACLE (lexer, unit lex_strings MQ2): `q^n s q^n` with n odd is read back as s iff s neither starts nor ends with q and has no run of n q's;
+// `"` escape_dq(s) `"` is read back as s (escaped quotes)
+pub open spec fn reads_as(out: Seq<char>, s: Seq<char>) -> bool {
+    ||| exists|q: char, n: nat| #[trigger] wraps(out, s, q, n) && (q == '"' || q == '\'') && n % 2 == 1 && !starts(s, q) && !ends(s, q) && max_run(s, q) < n
+    ||| out == seq!['"'] + escape_dq(s) + seq!['"']
+}
 
 pub open spec fn flat(ps: Seq<Seq<char>>) -> Seq<char>
     decreases ps.len()
@@ -120,7 +153,29 @@ def build(X):
         }
     """, "proof hint: one more piece")
     ef.insert_before("result\n}", "proof { assert(s@.take(s@.len() as int) =~= s@); }", "proof hint", nth=None)
-    return PRELUDE + ef.text + "\n} // verus!\nfn main() {}\n"
+    # ---- quote_string
+    qs = X.fn(LR, "quote_string").pub_all()
+    qs.rewrite_re("R5", r"\bs\.contains\(('(?:[^'\\]|\\.)')\)", r"str_contains_char(s, \1)", count=None, why="str::contains(char)")
+    qs.rewrite_re("R5", r"\bs\.starts_with\(('(?:[^'\\]|\\.)'|quote)\)", r"str_starts_with_char(s, \1)", count=None, why="str::starts_with(char)")
+    qs.rewrite_re("R5", r"\bs\.ends_with\(('(?:[^'\\]|\\.)'|quote)\)", r"str_ends_with_char(s, \1)", count=None, why="str::ends_with(char)")
+    qs.rewrite_re("R5", r'return format!\(r#""\{s\}""#\);', "return fmt_wrap('\"', s);", count=None, why="format!: double-quoted")
+    qs.rewrite_re("R5", r"""return format!\("'\{s\}'"\);""", "return fmt_wrap('\\'', s);", count=None, why="format!: single-quoted")
+    qs.rewrite_re("R5", r"let max_consecutive = s\s*\.split\(\|c\| c != quote\)\s*\.map\(\|quote_sequence\| quote_sequence\.len\(\)\)\s*\.max\(\)\s*\.unwrap_or\(0\);",
+                  "let max_consecutive = max_consecutive_of(s, quote);", count=None, why="iterator chain: longest run of the quote")
+    qs.rewrite_re("R5", r"\b(\w+)\.div_ceil\((\d+)\)", r"usize_div_ceil(\1, \2)", count=None, why="usize::div_ceil")
+    qs.rewrite_re("R5", r"quote\.to_string\(\)\.repeat\((\w+)\)", r"repeat_quote(quote, \1)", count=None, why="String::repeat")
+    qs.rewrite_re("R5", r'format!\("\{delim\}\{s\}\{delim\}"\)', "fmt_delim(&delim, s)", count=None, why="format!: delimiter, content, delimiter")
+    qs.rewrite_re("R5", r"""format!\("\\"\{\}\\"", s\.replace\('"', "\\\\\\""\)\)""", "fmt_wrap_escaped(s)", count=None, why="format!: escaped double quotes")
+    qs.ret_name("r")
+    qs.contract("""
+        requires s@.len() < 1_000_000_000,
+        ensures
+            // C14: the lexer reads the printed literal back as exactly s
+            reads_as(r@, s@), // @QS3
+    """)
+    qs.insert_at_body_start("proof { axiom_max_run(s@, '\"'); axiom_max_run(s@, '\\''); }", "oracle facts about runs of quotes")
+    wrap_escaped = "#[verifier::external_body] pub fn fmt_wrap_escaped(s: &str) -> (r: String) ensures r@ == seq!['\"'] + escape_dq(s@) + seq!['\"'], { unimplemented!() }\n"
+    return PRELUDE + ef.text + "\n" + wrap_escaped + qs.text + "\n} // verus!\nfn main() {}\n"
 
 
 # ----------------------------------------------------------------------------- replay / sweep on the real formatter
@@ -132,6 +187,9 @@ def _lits():
     out = ["\\x%02x" % c for c in list(range(0, 32)) + [127]]
     out += ["\\u{%x}" % c for c in (0x80, 0xe9, 0x3b1, 0x4e2d, 0x1F600, 0x10FFFF)]
     out += ["a\\\\b", "tab\\there", "q'q", 'd\\"d', "é ü 日本", "mix\\x01\\n'\\\\"]
+    # quotes of both kinds, at the ends and in runs (text of the inside of a double-quoted PRQL literal)
+    dq = '\\"'
+    out += ["'a" + dq, dq + "b'", "'" + dq, dq + "'", "it's " + dq + "x" + dq, "a''b" + dq * 3 + "c", "'''", "x'''" + dq * 2 + "y", "'mid" + dq + "dle'", dq + "q'q" + dq]
     return out
 
 
